@@ -210,7 +210,7 @@ impl Property for C03 {
         "C03"
     }
     fn rule(&self) -> String {
-        "cases: (a) byte strings: the generated inputs of C01/C02 (valid records, tampers, re-signed structural mutants) and unstructured bytes, handed to decode / Vec::decode / decode_public of every key type, NodeId::parse and the CombinedKey importers; (b) strings: texts of C12 and unstructured strings handed to from_str and to serde_json (quoted and raw) for Enr<K> and NodeId; (c) call histories as for C05 (malformed raw RLP, reserved keys through generic entry points, all eight families). After every step of every history and on every accepted record, 58+12*keys public accessors / formatters / conversions are called (get, get_decodable for 10 types, typed getters, sockets, public_key, verify, Debug, Display, serde, Hash, iteration, NodeId conversions, encode ...). Oracle: every call runs under catch_unwind; any panic is a violation (Result::Err is the contract and never one); a call still running after 20 CPU-seconds of its thread is reported as non-termination. Non-trivial: a history with a malformed/ill-typed argument or reserved key through a generic entry point, or an input that gets past the outer list header. Distinct by hash of the case.".into()
+        "cases: (a) byte strings: the generated inputs of C01/C02 (valid records, tampers, re-signed structural mutants) and unstructured bytes, handed to decode / Vec::decode / decode_public of every key type, NodeId::parse and the CombinedKey importers; (b) strings: texts of C12 and unstructured strings handed to from_str and to serde_json (quoted and raw) for Enr<K> and NodeId; (c) call histories as for C05 (malformed raw RLP, reserved keys through generic entry points, all eleven families). After every step of every history and on every accepted record, 58+12*keys public accessors / formatters / conversions are called (get, get_decodable for 10 types, typed getters, sockets, public_key, verify, Debug, Display, serde, Hash, iteration, NodeId conversions, encode ...). Oracle: every call runs under catch_unwind; any panic is a violation (Result::Err is the contract and never one); a call still running after 20 CPU-seconds of its thread is reported as non-termination. Non-trivial: a history with a malformed/ill-typed argument or reserved key through a generic entry point, or an input that gets past the outer list header. Distinct by hash of the case.".into()
     }
     fn assumptions(&self) -> Vec<String> {
         vec![
@@ -229,7 +229,7 @@ impl Property for C03 {
         }
     }
     fn enumerate(&self, quick: bool) -> Box<dyn Iterator<Item = Case> + Send + '_> {
-        let ex = [FamId::K256, FamId::CombinedEd].into_iter().flat_map(move |f| history::exhaustive(f, if quick { 1 } else { 2 })).map(Case::Hist);
+        let ex = [FamId::K256, FamId::CombinedEd].into_iter().flat_map(move |f| history::exhaustive(f, if quick { 1 } else { 2 })).chain(history::depth1_rest(&[FamId::K256, FamId::CombinedEd])).map(Case::Hist);
         // every byte value as a 1-byte input, every 2-byte header pattern
         let small = (0..=255u8).map(|b| Case::Wire(WireCase { bytes: vec![b], label: "one-byte".into(), has_custom: false }));
         let hdr = (0xb7..=0xffu8).flat_map(|a| {
